@@ -59,7 +59,7 @@ Fixpoint utf8_valid (bs : list Z) : bool :=
 Definition try_into_str (bs : list Z) : option (list Z) := if utf8_valid bs then Some bs else None.
 
 (* ---- codec ------------------------------------------------------------------------------------------
-   row [0; b..]          utf-8 decision            -> [1 | 0]
+   row [0; b..]          utf-8 decision            -> [&str from CSliceRef; &str from CSliceMut; &mut str from CSliceMut]
    row [1; k; v]         COption k=0 None,1 Some v -> [tag; payload]   (tag of the C enum, payload 0 for None)
    row [2; k; v]         CResult k=0 Ok v,1 Err v  -> [tag; payload]
    row [3; v..]          CTupN                      -> v..
@@ -67,7 +67,8 @@ Definition try_into_str (bs : list Z) : option (list Z) := if utf8_valid bs then
                                                    -> [a; n; ok; memory after..]                                *)
 Definition run_case12 (row : list Z) : list Z :=
   match row with
-  | 0 :: bs => [bz (utf8_valid bs)]
+  | 0 :: bs => (* the four checked conversions (&str / &mut str from CSliceRef / CSliceMut) share one decision *)
+      [bz (utf8_valid bs); bz (utf8_valid bs); bz (utf8_valid bs)]
   | [1; k; v] => let c := copt_from (if k =? 0 then None else Some v) in
                  (match c with CNone => [0; 0] | CSome x => [1; x] end) ++
                  (match copt_into c with None => [0; 0] | Some x => [1; x] end)
